@@ -64,6 +64,22 @@ func (s *sim) checkAll() {
 	tip := s.nodeTip()
 	c.State(uint64(tip.idx)<<32 ^ uint64(len(s.blocks))<<8 ^ uint64(s.node.pool.GetTransactionCount()))
 
+	// (0) lock discipline of the DPoS change histories (C40)
+	if n := s.node.locksetChecks; n > 0 {
+		c.ProbeN("history-op-lock-probed", n)
+		s.node.locksetChecks = 0
+		if s.node.locksetRollbacks > 0 {
+			c.ProbeN("state-history-rollback-lock-probed", s.node.locksetRollbacks)
+			s.node.locksetRollbacks = 0
+		}
+		c.Check()
+	}
+	for _, l := range s.node.lockset {
+		c.Violate("C40", "lock-discipline", "C40/lockset/"+l,
+			"the DPoS state was rewritten through its change history (%s): a state query holding the read lock at that moment reads maps that are being written", l)
+	}
+	s.node.lockset = nil
+
 	// (1) the active chain is a chain of model-valid blocks
 	c.Check()
 	if !tip.valid {
